@@ -114,7 +114,8 @@ check("C14", "other",
       "read is reported as Timeout; standard input = the expression; stderr merged iff combined; every variable of the test case (empty values "
       "too) reaches the process; both streams come back through render_output. Single-script (Cram) executor: the script's process gets exactly the "
       "document's total_timeout (absent → 900 s, 0 → none); a script stopped by it surfaces as Err(Timeout(Total)), a finishing one never (1..2/3 test cases; "
-      "replayed on real sleeps). The subprocess crate's own enforcement of "
+      "replayed on real sleeps). commands::test::Args::run (bin crate): the document configuration handed to the executor has total_timeout = --timeout-seconds "
+      "if given else the document's, with and without --prepend / --append-test-file-paths (any value; real runs with --timeout-seconds 1). The subprocess crate's own enforcement of "
       "the limit is not claimed (the CLI's reporting of later tests as skipped is C20's).",
       E2_NOTE + " Environment stubs (clock, runner, temp dir, tracing) as listed in the evidence.", E2_TECH, "E2", "DESIGN.md §3 C14")
 check("C15", "other",
@@ -168,12 +169,14 @@ check("C09", "other",
       "output_stream setting) is rewritten to a block that parses back to the same command, the recorded exit code and one matching expectation per line of "
       "the stream that validate compares; replayed through the real update generators on a real document. Shell expressions of 2–3/4 lines (empty lines, lines "
       "starting or ending in a blank, a trailing empty line) are written as `$ ` / `> ` lines that parse back to exactly that expression. Longer outputs and "
-      "document-level rendering are outside.",
+      "Document level: generate_testcases of the Markdown / Cram generator composed with the format's real document parser on the one-line family with |u| <= 1/2 "
+      "(title, fence / indentation included). Longer outputs are outside.",
       E2_NOTE + " Additionally trusts lib/miniregex.py.", E2_TECH, "E2", "DESIGN.md §3 C09")
 
 check("C17", "other",
       "Partial: the two places where to_yaml_one_liner writes user text. On the MIR of the renderer: an environment value is written "
-      "as a properly escaped double-quoted YAML scalar (values <= 3/4 chars over {a, \", \\, :, space}) and wait.path is either quoted "
+      "as a properly escaped double-quoted YAML scalar (values <= 3/4 chars over {a, \", \\, :, space}; values <= 3 chars with a no-break space, combining mark, "
+      "zero-width joiner, é or wide space at any position) and wait.path is either quoted "
       "like that or a plain scalar that a flow mapping cannot mistake (paths <= 3/4 chars over {a / . , } \"}); witnesses are replayed "
       "through the real serde_yaml round trip. timeout and wait (all durations below 400 days, nanosecond resolution) are written as "
       "humantime's rendering of exactly the configured duration (humantime::format_duration = injective black box; what scrut passes to it "
